@@ -83,6 +83,11 @@ func runFaultRounds(p *eng.Program, faults []eng.Fault, scratch string, idx int)
 	r := eng.NewRunner(p, c06Oracles, dir)
 	r.E.FS = fs
 	r.StopFaultsAtReopen = true
+	for _, f := range faults {
+		if f.Kind == "cut" { // pseudo entry: no operation has this kind
+			r.CutAfterFault = true
+		}
+	}
 	r.E.D.SetOnCross(func(point string) {
 		if len(point) > 6 && point[:6] == "store." {
 			fs.SetPhase(point)
@@ -117,7 +122,12 @@ func enumeratePlans(counts map[string]int, rounds []roundOps, r *eng.Rng, budget
 		}
 		for _, k := range []struct{ kind, mode string }{{"sync", "err"}, {"stat", "err"}, {"write", "err"}, {"write", "short"}, {"create", "err"}} {
 			for o := ro.From[k.kind]; o < ro.To[k.kind]; o++ {
-				must = append(must, []eng.Fault{{Kind: k.kind, Ordinal: o, Count: 1, Mode: k.mode}})
+				plan := []eng.Fault{{Kind: k.kind, Ordinal: o, Count: 1, Mode: k.mode}}
+				if ro.Kind == "partial" && len(must)%2 == 0 {
+					// variant that closes and reopens right after the retry
+					plan = append(plan, eng.Fault{Kind: "cut"})
+				}
+				must = append(must, plan)
 			}
 		}
 	}
@@ -171,7 +181,7 @@ func init() {
 	ck := &run.Check{
 		Prop:  "C06",
 		Level: "fault_enumeration",
-		Rule: "each steered store program (appends, partial/full/idle compactions with small buffers so that compaction output needs several buffered writes, child collections) runs once cleanly through the File substrate to count operations, then once per fault plan: every (kind, ordinal) single failure for create-open / WriteAt error / short write (a prefix really written, ENOSPC) / Sync / Stat, bursts of 2,3,8, failures persisting until a later ordinal, and pairs of kinds (quick: seeded sample of the plans). Monitors after every step: collection snapshot == reference content; after every round (successful or failed) Store.Snapshot is a non-decreasing prefix state; after every successful round a copy of the directory reopens to a prefix >= the store's; an OnError without a newly fired injected fault is a violation; after the faults, two drains and a caught-up close the reopened content must be the full reference content. distinct_nontrivial = distinct (store phase at the failing operation | kind | mode) triples among plans that actually fired.",
+		Rule: "each steered store program (appends, partial/full/idle compactions with small buffers so that compaction output needs several buffered writes, child collections) runs once cleanly through the File substrate to count operations, then once per fault plan: every (kind, ordinal) single failure for create-open / WriteAt error / short write (a prefix really written, ENOSPC) / Sync / Stat, bursts of 2,3,8, failures persisting until a later ordinal, and pairs of kinds (quick: seeded sample of the plans, plus every single failure inside partial and first full compaction rounds; half of the partial-round plans skip to the final close + reopen as soon as the retry has succeeded). Monitors after every step: collection snapshot == reference content; after every round (successful or failed) Store.Snapshot is a non-decreasing prefix state; after every successful round a copy of the directory reopens to a prefix >= the store's; an OnError without a newly fired injected fault is a violation; after the faults, two drains and a caught-up close the reopened content must be the full reference content. distinct_nontrivial = distinct (store phase at the failing operation | kind | mode) triples among plans that actually fired.",
 		MinUnits:    8,
 		Assumptions: []string{"a failure may cost the round (content stays at the older prefix); only corruption, regression, silent loss or a stuck persister are violations", "a fault on an operation whose result moss ignores need not be surfaced"},
 	}
